@@ -24,14 +24,21 @@ CHECKS = {'C01': {'level': 'exploration',
                  "(d) in-flight observation at a drawn point inside the body: a second transaction's full Range dump, Count, a Snapshot+Restore and "
                  "the transaction's own reads must all show the pre-transaction state. non-trivial = a rollback of a transaction that had buffered a "
                  'successful insert, delete or key write, or an in-flight observation of a transaction with >=1 buffered change; distinct = hash of '
-                 'the trace',
+                 'the trace | controlled-schedule part (TestSchedWriters with VERIF_PROP=C02): generated concurrent writer programs under the '
+                 'cooperative scheduler; the final state must equal the initial state with every committed transaction part folded in apply order '
+                 '(each commit applied all it buffered and nothing else, also when other writers run between its blocks)',
          'assumptions': ['in-flight observation happens from the same goroutine between two steps of the body (no latch is held there)',
                          'generator exclusions driven by known findings are counted in coverage.excluded_by_known_finding'],
          'tests': [{'run': '^TestC02$',
                     'checks': {'quick': 250, 'thorough': 2500},
                     'shards': {'quick': 1, 'thorough': 16},
                     'timeout': {'quick': 900, 'thorough': 3400},
-                    'env': {'GOMAXPROCS': 1}}]},
+                    'env': {'GOMAXPROCS': 1}},
+                   {'run': '^TestSchedWriters$',
+                    'checks': {'quick': 1000, 'thorough': 15000},
+                    'shards': {'quick': 1, 'thorough': 6},
+                    'env': {'VERIF_PROP': 'C02', 'GOMAXPROCS': 1},
+                    'timeout': {'quick': 900, 'thorough': 3400}}]},
  'C03': {'level': 'exploration',
          'rule': 'model-based stateful histories (as C01, with rollbacks and key operations) plus actions createIndex(col, predicate)/dropIndex at '
                  'arbitrary points, up to 4 live indexes, several per column; predicate families: numeric threshold (<,>=) and parity decoded with '
@@ -215,7 +222,9 @@ CHECKS = {'C01': {'level': 'exploration',
                  'stores a unique tag; at quiescence every surviving tag is found exactly once at the offset its insert returned, no fresh row '
                  "exposes a previous occupant's value, Count == surviving rows. non-trivial = an insert landed on a previously deleted offset that "
                  'had held values in a column the new insert did not set (sequential) / a surviving row sits on a previously deleted offset '
-                 '(parallel); distinct = hash of trace/program',
+                 '(parallel); distinct = hash of trace/program | controlled-schedule part (TestSchedWriters with VERIF_PROP=C11): generated writer '
+                 'programs with multi-block deletes and inserts under the cooperative scheduler; when the transaction parts are folded in apply '
+                 'order an insert must never have been given an offset that still holds a live row, and Count == live rows at the end',
          'assumptions': ['free-parallel runs are not bit-reproducible: the replay re-runs the generated program (schedule left to the Go runtime)'],
          'tests': [{'run': '^TestC11$',
                     'checks': {'quick': 200, 'thorough': 2000},
@@ -225,6 +234,11 @@ CHECKS = {'C01': {'level': 'exploration',
                    {'run': '^TestC11Parallel$',
                     'checks': {'quick': 150, 'thorough': 3000},
                     'shards': {'quick': 1, 'thorough': 4},
+                    'timeout': {'quick': 900, 'thorough': 3400}},
+                   {'run': '^TestSchedWriters$',
+                    'checks': {'quick': 1200, 'thorough': 15000},
+                    'shards': {'quick': 1, 'thorough': 6},
+                    'env': {'VERIF_PROP': 'C11', 'GOMAXPROCS': 1},
                     'timeout': {'quick': 900, 'thorough': 3400}}]},
  'C12': {'level': 'exploration',
          'rule': 'model-based stateful histories on keyed schemas: transactions of 1..8 steps over InsertKey/UpsertKey/QueryKey/DeleteKey/SetKey '
@@ -238,7 +252,10 @@ CHECKS = {'C01': {'level': 'exploration',
                  '50..400 key operations over 2..12 keys (+ optional 100 / 16380 pre-filled keyed rows that are deleted and re-inserted to force '
                  'offset reuse); creating operations for a key come from its owner only (finding f17), and while finding f26 is listed a key is '
                  'touched by its owner only (counted). Oracle at quiescence: at most one live row per key, for every key a lookup succeeds iff '
-                 'exactly that row holds it, Count == visible rows',
+                 'exactly that row holds it, Count == visible rows | interleaved part (TestC12Interleaved): a second stream B commits InsertKey '
+                 "operations for fresh keys INSIDE the body of transaction A between A's steps (deterministic stand-in for a concurrent writer; B "
+                 'never deletes, so f26 and f17 are not touched); every step is judged against the committed table at issue time and the final state '
+                 'against the reference map',
          'assumptions': ['existence is judged against the committed table when the operation is issued (documented mechanism)',
                          'the key column is written only through InsertKey/UpsertKey/SetKey (SetAny on the key column bypasses the duplicate test '
                          'and is outside the property)'],
@@ -250,6 +267,11 @@ CHECKS = {'C01': {'level': 'exploration',
                    {'run': '^TestC12Parallel$',
                     'checks': {'quick': 300, 'thorough': 6000},
                     'shards': {'quick': 1, 'thorough': 4},
+                    'timeout': {'quick': 900, 'thorough': 3400}},
+                   {'run': '^TestC12Interleaved$',
+                    'checks': {'quick': 300, 'thorough': 4000},
+                    'shards': {'quick': 1, 'thorough': 8},
+                    'env': {'GOMAXPROCS': 1},
                     'timeout': {'quick': 900, 'thorough': 3400}}]},
  'C13': {'level': 'fault_enumeration',
          'rule': 'files: (i) snapshots of generated collections (0..3 blocks, thinned to a few dozen rows on block/word boundaries, keyed or not) '
